@@ -9,17 +9,17 @@ from props.cu_common import diff
 
 ID = 'C08'
 LEVEL = 'other'
-TUS = ['src/engine/engine_sensor.c', 'src/engine/engine_passive.c', 'src/engine/engine_support.c', 'src/engine/engine_core_util.c', 'src/engine/engine_util_blas.c', 'src/engine/engine_util_misc.c',
+TUS = ['src/engine/engine_sensor.c', 'src/engine/engine_core_smooth.c', 'src/engine/engine_passive.c', 'src/engine/engine_support.c', 'src/engine/engine_core_util.c', 'src/engine/engine_util_blas.c', 'src/engine/engine_util_misc.c',
        'src/engine/engine_util_sparse.c', 'src/engine/engine_util_spatial.c']
 SUP = ['src/engine/engine_support.c', 'src/engine/engine_core_util.c', 'src/engine/engine_util_blas.c', 'src/engine/engine_util_misc.c', 'src/engine/engine_util_sparse.c', 'src/engine/engine_util_spatial.c',
        'src/engine/engine_util_errmem.c', 'src/engine/engine_memory.c', 'src/engine/engine_core_smooth.c']
 EXPLANATION = ('llsym (real-algebraic) runs the real mj_energyVel, mj_energyPos and the real static mj_springdamper on symbolic models. (1) energy[1] equals 1/2 * qvel^T M qvel with M written out from its stored sparse entries (symmetric '
                'completion), for the tree topologies of C06 with every stored entry of M and every velocity free. (2) On slide / hinge joints with linear and polynomial stiffness, and on tendons with a length dead-band, the potential '
                'energy that mj_energyPos reports is differentiated SYMBOLICALLY with respect to each joint position / tendon length, and z3 must show that the spring force mj_springdamper produces is exactly minus that gradient '
-               '(for tendons: minus dE/dlength times the moment arm). (3) The gravity term is -sum_i m_i g . xipos_i and vanishes with mjDSBL_GRAVITY; the spring term vanishes with mjDSBL_SPRING.')
+               '(for tendons: minus dE/dlength times the moment arm). (2b) mj_subtreeVel: the linear velocity of every subtree times its mass is the sum of the bodies\' momenta, and the angular momentum of a one-body subtree is R I R^T w about its centre of mass (inertial frame ximat). (3) The gravity term is -sum_i m_i g . xipos_i and vanishes with mjDSBL_GRAVITY; the spring term vanishes with mjDSBL_SPRING.')
 BOUNDS = {'quick': {'kinetic': 'chain3, fork3, twodof (nv = 3)', 'springs': '2 scalar joints, 1 tendon over both dofs'}, 'thorough': {'kinetic': 'plus chain4, fork4, mixed5', 'springs': '3 joints, 1 tendon'}}
 OUTSIDE = ('conservation of the total energy along RK4 trajectories and its fourth-order drift, conservation of momentum (multi-step floating-point trajectories: not a bounded query); ball / free joint springs (quaternion difference); '
-           'flex edge springs; the gravitational force itself (it comes out of mj_rne, see C06).')
+           'angular momentum of subtrees with more than one body (the recursive accumulation about moving centres of mass is a rational identity nlsat does not finish; leaf subtrees are covered); flex edge springs; the gravitational force itself (it comes out of mj_rne, see C06).')
 ASSUMPTIONS = ['real-number semantics', 'sleep disabled', 'tendon_lengthspring[0] <= [1]', 'mj_stackAllocInfo returns a fresh block']
 BUDGET = {'quick': 400, 'thorough': 1200}
 _c = {}
@@ -40,7 +40,7 @@ def so_passive():
     return _c['so2']
 
 
-def prepare(tier): mod(); so(); so_passive(); C06.lay()
+def prepare(tier): mod(); so(); so_passive(); so_smooth(); C06.lay()
 
 
 def I(v): return z3.BitVecVal(v, 32)
@@ -138,8 +138,75 @@ def unit_springs(tier, nv, nt, flags):
     return ck
 
 
+def unit_momentum(tier, topo):
+    """mj_subtreeVel: subtree linear velocity = total momentum / subtree mass; subtree angular momentum (about the subtree COM) = sum of R I R^T w + m (x - COM) x (v - V) over the subtree"""
+    ck = Checker('momentum_%s' % topo, tier, timeout_s=200, semantics='real')
+    KO = build.enum_values('mjOBJ_')
+    S, w, M, D = C06.world(topo, ('cvel', 'xipos', 'ximat'))
+    nv, nb = S['nv'], S['nb']
+    sub = {b: [c for c in range(nb) if c == b or desc(S, c, b)] for b in range(nb)}
+    mo, mass = M.arr('body_mass', 'f64', nb, name='mass'); io, inert = M.arr('body_inertia', 'f64', 3 * nb, name='inertia')
+    xi0 = D.arrays['xipos'][3]
+    # subtree mass and subtree centre of mass are DEFINED from the body masses and COM positions (what mj_setConst / mj_comPos compute), as terms - not as side constraints
+    sm = [sum(mass[c] for c in sub[b]) for b in range(nb)]
+    M.arr('body_subtreemass', 'f64', nb, sm, name='smass')
+    comv = [sum(mass[c] * xi0[3 * c + k] for c in sub[b]) / sm[b] for b in range(nb) for k in range(3)]
+    D.arr('subtree_com', 'f64', 3 * nb, comv, name='subtree_com')
+    vo, _ = w.arr('vel', 'f64', 6, [0.0] * 6)
+    ex = executor(8 * nb + 16); st = w.to_state(ex)
+    xi = D.arrays['xipos'][3]; com = D.arrays['subtree_com'][3]; R = D.arrays['ximat'][3]
+    sub = {b: [c for c in range(nb) if c == b or desc(S, c, b)] for b in range(nb)}
+    import fractions
+    MINV = z3.RealVal(str(fractions.Fraction(1e-15)))      # mjMINVAL as the double it is
+    pre = [sm[b] >= MINV for b in range(nb)] + [m_ >= 0 for m_ in mass]
+    st.pc += pre
+    # body velocities from the real mj_objectVelocity
+    vel = {}
+    for b in range(nb):
+        rr = [r for r in ex.run('@mj_objectVelocity', [w.P(M.o), w.P(D.o), z3.BitVecVal(KO['mjOBJ_BODY'], 32), z3.BitVecVal(b, 32), w.P(vo), z3.BitVecVal(0, 32)], st.clone()) if r.kind == 'return']
+        if len(rr) != 1: ck.error('mj_objectVelocity paths %d' % len(rr)); return ck
+        vel[b] = [ex.load(rr[0].state, w.P(vo, 8 * k), FpT('double')) for k in range(6)]
+    res = ex.run('@mj_subtreeVel', [w.P(M.o), w.P(D.o)], st.clone()); ck.note_results(ex, res)
+    dec = lambda mdl: {'topology': topo, 'mass': [str(W.evalnum(mdl, x)) for x in mass]}
+    def cr(a, b): return [a[1] * b[2] - a[2] * b[1], a[2] * b[0] - a[0] * b[2], a[0] * b[1] - a[1] * b[0]]
+    for r in res:
+        if r.kind != 'return': continue
+        lv = [ex.load(r.state, w.P(D.arrays['subtree_linvel'][0], 8 * k), FpT('double')) for k in range(3 * nb)]
+        am = [ex.load(r.state, w.P(D.arrays['subtree_angmom'][0], 8 * k), FpT('double')) for k in range(3 * nb)]
+        outs = [('linvel%d' % k, D.arrays['subtree_linvel'][0], 8 * k, 'f64', lv[k]) for k in range(3 * nb)] + [('angmom%d' % k, D.arrays['subtree_angmom'][0], 8 * k, 'f64', am[k]) for k in range(3 * nb)]
+        rp = W.make_replay(so_smooth(), 'mj_subtreeVel', w, [('ptr', (M.o, 0)), ('ptr', (D.o, 0))], outputs=outs, semantics='real')
+        for b in range(nb):
+            ck.prove('subtree %d: linear velocity * subtree mass = sum of m v over the subtree' % b, r.state.pc, z3.And(*[lv[3 * b + k] * sm[b] == sum(mass[c] * vel[c][3 + k] for c in sub[b]) for k in range(3)]),
+                     site='mj_subtreeVel:linear', decode=dec, replay=rp)
+            if b == 0 or len(sub[b]) > 1: continue       # subtrees with children: the rational identity does not finish in nlsat (outside the claim)
+            tot = [z3.RealVal(0)] * 3
+            for c in sub[b]:
+                Rc = R[9 * c:9 * c + 9]; wv = vel[c][0:3]
+                loc = [sum(Rc[3 * k + i] * wv[k] for k in range(3)) * inert[3 * c + i] for i in range(3)]        # I * (R^T w) in the inertial frame
+                spin = [sum(Rc[3 * k + i] * loc[i] for i in range(3)) for k in range(3)]
+                dx = [xi[3 * c + k] - com[3 * b + k] for k in range(3)]; dv = [vel[c][3 + k] - lv[3 * b + k] for k in range(3)]
+                orb = cr(dx, [mass[c] * x for x in dv])
+                tot = [tot[k] + spin[k] + orb[k] for k in range(3)]
+            ck.prove('subtree %d: angular momentum about the subtree COM = sum of R I R^T w + m (x - COM) x (v - V)' % b, r.state.pc, z3.And(*[am[3 * b + k] == tot[k] for k in range(3)]), site='mj_subtreeVel:angular', decode=dec, replay=rp)
+    ck.reach('consistent centres of mass', pre)
+    return ck
+
+
+def desc(S, c, b):
+    while c > 0:
+        c = S['par'][c]
+        if c == b: return True
+    return False
+
+
+def so_smooth():
+    if 'so3' not in _c: _c['so3'] = build.native_lib(['src/engine/engine_core_smooth.c'], [t for t in SUP if t != 'src/engine/engine_core_smooth.c'], name='smooth_c08')
+    return _c['so3']
+
+
 def units(tier):
     u = [('kinetic_%s' % t, 'unit_kinetic', {'topo': t}) for t in (['chain3', 'fork3', 'twodof'] if tier == 'quick' else ['chain3', 'fork3', 'twodof', 'chain4', 'fork4', 'mixed5'])]
+    u += [('momentum_%s' % t, 'unit_momentum', {'topo': t}) for t in (['twodof'] if tier == 'quick' else ['twodof', 'chain3', 'fork3'])]
     for nv, nt in ([(2, 1)] if tier == 'quick' else [(2, 1), (3, 1)]):      # (3, 2) does not finish within the unit budget
         for f in (0, 1, 2): u.append(('springs_nv%d_nt%d_f%d' % (nv, nt, f), 'unit_springs', {'nv': nv, 'nt': nt, 'flags': f}))
     return u
